@@ -1,6 +1,7 @@
 package main
 
 import (
+	"encoding/hex"
 	"fmt"
 	"math/big"
 	"sort"
@@ -11,7 +12,7 @@ import (
 )
 
 var colTypes = []string{"string", "Str", "int", "Sm", "int16", "time.Duration", "uint8", "uint64", "Un", "bool", "rune"}
-var colWords = map[string]string{"string": "Label", "Str": "Tag", "int": "Num", "Sm": "Small", "int16": "Mid", "time.Duration": "Dur", "uint8": "Byte", "uint64": "Big", "Un": "Port", "bool": "Flag", "rune": "Rn"}
+var colWords = map[string]string{"string": "Label", "Str": "Tag", "int": "Num", "Sm": "Small", "int16": "Mid", "time.Duration": "Dur", "uint8": "Byte", "uint64": "Big", "Un": "Port", "bool": "Flag", "rune": "Rn", "int8": "Tiny", "uint16": "Word"}
 
 // scalarPool hands out pairwise distinct constants: strings never look like identifiers, integers
 // are distinct across ALL numeric columns of the type (so a number names at most one value).
@@ -19,10 +20,15 @@ type scalarPool struct {
 	g       *gen
 	usedInt map[string]bool
 	usedStr map[string]bool
+	emptyOK bool // hand out the empty string once
 }
 
 func (p *scalarPool) str() string {
 	words := []string{"lab-1", "x y", "ten", "a.b", "zero!", "q", "Lab-1", "two words", "v/1", "#tag", "né", "1st", "-", "tr ue"}
+	if p.emptyOK && !p.usedStr[""] && p.g.rng.Intn(3) == 0 {
+		p.usedStr[""] = true
+		return ""
+	}
 	for {
 		w := words[p.g.rng.Intn(len(words))]
 		if p.g.rng.Intn(3) == 0 {
@@ -91,7 +97,7 @@ func (p *scalarPool) scalar(ty string, row int) string {
 		}
 	case ty == "int":
 		return "i:" + strconv.FormatInt(p.intIn(-1000, 100000), 10)
-	case strings.HasPrefix(ty, "Sm"):
+	case strings.HasPrefix(ty, "Sm"), ty == "int8":
 		return "i:" + strconv.FormatInt(p.intIn(-128, 127), 10)
 	case ty == "int16":
 		return "i:" + strconv.FormatInt(p.intIn(-32768, 32767), 10)
@@ -99,7 +105,7 @@ func (p *scalarPool) scalar(ty string, row int) string {
 		return "i:" + strconv.FormatInt(p.intIn(-5, 4000000000000), 10)
 	case ty == "uint8":
 		return "i:" + strconv.FormatInt(p.intIn(0, 255), 10)
-	case strings.HasPrefix(ty, "Un"):
+	case strings.HasPrefix(ty, "Un"), ty == "uint16":
 		return "i:" + strconv.FormatInt(p.intIn(0, 65535), 10)
 	case ty == "uint64":
 		if p.g.rng.Intn(3) == 0 {
@@ -123,16 +129,39 @@ func hexOf2(s string) string { // s:<hex> with an empty payload for the empty st
 	return fmt.Sprintf("%x", s)
 }
 
-// traitDef: a definition file whose types carry 1-5 trait columns.
-//   - wantDups: duplicated values (deprecated with / without trait columns, two live names)
-//   - opts: option letters to use
+// traitShape steers traitDef: random by default, with the shaped classes switched on per field.
+type traitShape struct {
+	opts        string
+	maxCols     int
+	dups        bool     // one or two random duplicate names
+	families    []string // column type families to draw from (without repetition)
+	fixedCols   []string // if set: exactly these column families, in this order (repeats allowed:
+	//                      distinct named types sharing an underlying type)
+	allParsable bool
+	rowless     bool     // some non-lowest values are declared without trait columns
+	emptyStr    bool     // one string trait constant may be the empty string
+	dupGroups   []string // deprecation patterns (alphabetical order, d/L): each pattern gets a value of
+	//                      its own whose names all carry DIFFERENT trait constants
+	nTypes      int
+	nConsts     int
+}
+
 func (g *gen) traitDef(opts string, maxCols int, wantDups bool, families []string) *Def {
+	return g.shapedDef(traitShape{opts: opts, maxCols: maxCols, dups: wantDups, families: families})
+}
+
+// shapedDef: a definition file whose types carry 1-5 trait columns.
+func (g *gen) shapedDef(sh traitShape) *Def {
 	rng := g.rng
 	n := g.nextSerial()
+	opts := sh.opts
 	d := &Def{Opts: opts}
-	nTypes := 1
-	if rng.Intn(4) == 0 {
-		nTypes = 2
+	nTypes := sh.nTypes
+	if nTypes == 0 {
+		nTypes = 1
+		if rng.Intn(4) == 0 {
+			nTypes = 2
+		}
 	}
 	for ti := 0; ti < nTypes; ti++ {
 		kind := g.nextKind()
@@ -140,27 +169,41 @@ func (g *gen) traitDef(opts string, maxCols int, wantDups bool, families []strin
 		t := fmt.Sprintf("E%d%c", n, 'a'+ti)
 		pre := fmt.Sprintf("C%d%c", n, 'a'+ti)
 		td := TypeD{Name: t, Kind: kind}
-		nCols := 1 + rng.Intn(maxCols)
-		perm := rng.Perm(len(families))
-		for j := 0; j < nCols && j < len(families); j++ {
-			ty := families[perm[j]]
-			word := colWords[ty]
-			if ty == "Str" || ty == "Sm" || ty == "Un" {
-				ty = fmt.Sprintf("%s%d%c", ty, n, 'a'+ti)
+		var fams []string
+		if len(sh.fixedCols) > 0 {
+			fams = sh.fixedCols
+		} else {
+			nCols := 1 + rng.Intn(sh.maxCols)
+			perm := rng.Perm(len(sh.families))
+			for j := 0; j < nCols && j < len(sh.families); j++ {
+				fams = append(fams, sh.families[perm[j]])
 			}
-			td.Cols = append(td.Cols, Col{Name: fmt.Sprintf("%s%d%c", word, n, 'a'+ti), Ty: ty, Fam: famOfTy(ty)})
+		}
+		for j, ty := range fams {
+			word := colWords[ty]
+			sfx := byte('a' + ti*5 + j)
+			if ty == "Str" || ty == "Sm" || ty == "Un" {
+				ty = fmt.Sprintf("%s%d%c", ty, n, sfx)
+			}
+			td.Cols = append(td.Cols, Col{Name: fmt.Sprintf("%s%d%c", word, n, sfx), Ty: ty, Fam: famOfTy(ty)})
 		}
 		// parsable subset
 		for _, c := range td.Cols {
-			if rng.Intn(3) != 0 {
+			if sh.allParsable || rng.Intn(3) != 0 {
 				d.Parsable = append(d.Parsable, c.Name)
 			}
 		}
 		d.Types = append(d.Types, td)
-		pool := &scalarPool{g: g, usedInt: map[string]bool{}, usedStr: map[string]bool{}}
-		nC := 2 + rng.Intn(7)
-		if rng.Intn(6) == 0 {
-			nC = 16 + rng.Intn(4)
+		pool := &scalarPool{g: g, usedInt: map[string]bool{}, usedStr: map[string]bool{}, emptyOK: sh.emptyStr}
+		nC := sh.nConsts
+		if nC == 0 {
+			nC = 2 + rng.Intn(7)
+			if rng.Intn(6) == 0 {
+				nC = 16 + rng.Intn(4)
+			}
+		}
+		if nC < len(sh.dupGroups)+1 {
+			nC = len(sh.dupGroups) + 1
 		}
 		start := bi(0)
 		if lo.Sign() < 0 && rng.Intn(3) == 0 {
@@ -173,27 +216,56 @@ func (g *gen) traitDef(opts string, maxCols int, wantDups bool, families []strin
 		if ti > 0 {
 			d.Items = append(d.Items, Item{What: "block"})
 		}
+		tvals := func(row int) []string {
+			var r []string
+			for _, c := range td.Cols {
+				r = append(r, pool.scalar(c.Ty, row))
+			}
+			return r
+		}
 		var lines []Item
 		v := new(big.Int).Set(start)
+		rowlessDone := false
 		for i := 0; i < nC && v.Cmp(hi) <= 0; i++ {
-			it := Item{What: "const", T: t, Name: nm.next(), Val: new(big.Int).Set(v), Form: "c"}
-			if rng.Intn(4) == 0 {
-				it.Form = "x"
+			if i >= 1 && i <= len(sh.dupGroups) {
+				// a duplicated value: one name per pattern letter, alphabetical order = pattern order,
+				// every line with trait constants of its own; source order rotated
+				pat := sh.dupGroups[i-1]
+				var grp []Item
+				for k := 0; k < len(pat); k++ {
+					it := Item{What: "const", T: t, Name: nm.take(fmt.Sprintf("G%d%c", i, 'A'+k)), Val: new(big.Int).Set(v), Form: "x", Dep: pat[k] == 'd'}
+					if rng.Intn(5) == 0 {
+						it.Form = "xn"
+					}
+					it.TVals = tvals(i + k)
+					grp = append(grp, it)
+				}
+				rot := rng.Intn(len(grp))
+				grp = append(grp[rot:], grp[:rot]...)
+				lines = append(lines, grp...)
+			} else {
+				it := Item{What: "const", T: t, Name: nm.next(), Val: new(big.Int).Set(v), Form: "c"}
+				if rng.Intn(4) == 0 {
+					it.Form = "x"
+				}
+				if i > 0 && rng.Intn(4) == 0 {
+					it.Form += "n"
+				}
+				// the lowest value's line declares the traits; later values may have no trait columns
+				if i > 0 && sh.rowless && (rng.Intn(3) == 0 || (!rowlessDone && i == nC-1)) {
+					rowlessDone = true
+				} else {
+					it.TVals = tvals(i)
+				}
+				lines = append(lines, it)
 			}
-			if i > 0 && rng.Intn(4) == 0 {
-				it.Form += "n"
-			}
-			for _, c := range td.Cols {
-				it.TVals = append(it.TVals, pool.scalar(c.Ty, i))
-			}
-			lines = append(lines, it)
 			step := int64(1)
 			if rng.Intn(5) == 0 {
 				step = int64(2 + rng.Intn(5))
 			}
 			v = new(big.Int).Add(v, bi(step))
 		}
-		if wantDups && len(lines) > 1 {
+		if sh.dups && len(lines) > 1 {
 			nd := 1 + rng.Intn(2)
 			for k := 0; k < nd; k++ {
 				src := lines[1+rng.Intn(len(lines)-1)] // never the lowest value: its first name declares the traits
@@ -201,16 +273,12 @@ func (g *gen) traitDef(opts string, maxCols int, wantDups bool, families []strin
 				switch rng.Intn(3) {
 				case 0: // deprecated alias with trait columns of its own (ignored in favour of the primary)
 					dup.Dep = true
-					for _, c := range td.Cols {
-						dup.TVals = append(dup.TVals, pool.scalar(c.Ty, k))
-					}
+					dup.TVals = tvals(k)
 				case 1: // deprecated alias without trait columns
 					dup.Dep = true
 				default: // a second live name (the generator warns); with or without columns
 					if rng.Intn(2) == 0 {
-						for _, c := range td.Cols {
-							dup.TVals = append(dup.TVals, pool.scalar(c.Ty, k))
-						}
+						dup.TVals = tvals(k)
 					}
 				}
 				lines = append(lines, dup)
@@ -218,6 +286,51 @@ func (g *gen) traitDef(opts string, maxCols int, wantDups bool, families []strin
 		}
 		d.Items = append(d.Items, lines...)
 	}
+	return d
+}
+
+// yamlNames: identifiers that mean something to YAML / JSON readers
+var yamlNames = []string{"Null", "null", "NULL", "True", "False", "Yes", "No", "On", "Off", "Y", "N", "yes", "no", "on", "off", "y", "n", "TRUE", "NaN", "Inf"}
+
+// yamlNamesDef: an enum whose VALUE NAMES are YAML/JSON-significant identifiers (only one such
+// definition fits a package: the names are not prefixed). One value is duplicated so that a
+// significant name is also a primary name picked among aliases.
+func (g *gen) yamlNamesDef(opts string) *Def {
+	rng := g.rng
+	n := g.nextSerial()
+	t := fmt.Sprintf("E%da", n)
+	d := &Def{Opts: opts, Types: []TypeD{{Name: t, Kind: g.nextKind()}}}
+	fold := strings.Contains(opts, "c")
+	seen := map[string]bool{}
+	var names []string
+	for _, i := range rng.Perm(len(yamlNames)) {
+		nm := yamlNames[i]
+		k := nm
+		if fold {
+			k = strings.ToLower(nm)
+		}
+		if !seen[k] {
+			seen[k] = true
+			names = append(names, nm)
+		}
+	}
+	// the three spellings of null first (as far as the fold allows), then the others
+	sort.SliceStable(names, func(i, j int) bool {
+		return strings.EqualFold(names[i], "null") && !strings.EqualFold(names[j], "null")
+	})
+	if len(names) > 14 {
+		names = names[:14]
+	}
+	for i, nm := range names {
+		form := "r"
+		if i == 0 {
+			form = "i"
+		}
+		d.Items = append(d.Items, Item{What: "const", T: t, Name: nm, Val: bi(int64(i)), Form: form})
+	}
+	// deprecated alias sorting BEFORE a significant name: the significant name stays primary
+	d.Items = append(d.Items, Item{What: "block"},
+		Item{What: "const", T: t, Name: fmt.Sprintf("AAlias%d", n), Val: bi(0), Dep: true, Form: "x"})
 	return d
 }
 
@@ -299,6 +412,9 @@ func (g *gen) emitC05(defs []*Def, domain bool) {
 			for _, codec := range codecsOf(d.Opts) {
 				lines := append([]string{hdr + " " + codec}, defLines...)
 				lines = append(lines, "gn marshal "+td.Name+" "+codec+" "+defined, "gn rt "+td.Name+" "+codec+" "+defined)
+				if codec != "text" {
+					lines = append(lines, "gn rtf "+td.Name+" "+codec+" "+defined)
+				}
 				docs := map[string]bool{}
 				var order []string
 				add := func(doc string) {
@@ -348,6 +464,11 @@ func (g *gen) emitC05(defs []*Def, domain bool) {
 						switch k {
 						case "s":
 							add("s:" + p)
+							// case variants of a string trait constant are no constants (also under -caseInsensitive)
+							if raw, err := hex.DecodeString(p); err == nil {
+								sdoc(strings.ToUpper(string(raw)))
+								sdoc(swapCase(string(raw)))
+							}
 						case "i":
 							add("n:" + p)
 							if x, ok := new(big.Int).SetString(p, 10); ok {
@@ -377,7 +498,29 @@ func (g *gen) emitC05(defs []*Def, domain bool) {
 				if len(dupPatterns(d, td.Name)) > 0 {
 					tags = append(tags, "duplicates")
 				}
-				g.r.Add(hx.Case{Lines: lines, Domain: domain, Nontrivial: np > 0 || len(dupPatterns(d, td.Name)) > 0, Tags: tags})
+				rowless, significant := false, false
+				for _, it := range consts {
+					if len(td.Cols) > 0 && len(it.TVals) == 0 {
+						rowless = true
+					}
+					for _, y := range yamlNames {
+						if it.Name == y {
+							significant = true
+						}
+					}
+					for _, sc := range it.TVals {
+						if sc == "s:" {
+							tags = append(tags, "empty-string-trait")
+						}
+					}
+				}
+				if rowless {
+					tags = append(tags, "value-without-trait-row")
+				}
+				if significant {
+					tags = append(tags, "yaml-significant-names")
+				}
+				g.r.Add(hx.Case{Lines: lines, Domain: domain, Nontrivial: np > 0 || significant || len(dupPatterns(d, td.Name)) > 0, Tags: tags})
 			}
 		}
 	}
